@@ -149,6 +149,20 @@ func c04Final(bi int, st *c04State, bare bool) func(env *Env) string {
 			if vrt.Elapsed()-st.openAt < int64(spec.BDelay) && cb.TryAcquirePermit() {
 				return "open breaker granted a permit before its delay elapsed"
 			}
+			if vrt.Elapsed()-st.openAt >= int64(spec.BDelay) {
+				// the delay has elapsed and nothing is in flight: the next requests half-open it, and the new
+				// half-open period has its full trial capacity
+				cap_ := halfOpenCapacity(spec)
+				got := 0
+				for i := 0; i < cap_+1; i++ {
+					if cb.TryAcquirePermit() {
+						got++
+					}
+				}
+				if got != cap_ {
+					return fmt.Sprintf("breaker half-opened at quiescence after its delay grants %d permits, trial capacity is %d (a permit was lost or duplicated)", got, cap_)
+				}
+			}
 		}
 		return ""
 	}
@@ -219,6 +233,15 @@ func c04Scenarios(tier string) []*Scenario {
 			env.Breakers[0].RecordFailure()
 		}
 	})
+	// a trial still in flight when another trial's result re-opens (or closes) the breaker records its
+	// result in the next state; the half-open period after that has its full capacity again
+	HOD := func(st, sc uint) Spec {
+		return Spec{Kind: KBreaker, FT: 1, FC: 1, ST: st, SC: sc, BDelay: D, Pre: "halfopen"}
+	}
+	add("halfopen-straggler-reopen", []Spec{HOD(2, 2)}, 0, []ExeSpec{{Script: ok(30)}, {Script: fail(5), StartAt: 1}}, true)
+	add("halfopen-straggler-reopen-fail", []Spec{HOD(2, 2)}, 0, []ExeSpec{{Script: fail(30)}, {Script: fail(5), StartAt: 1}}, true)
+	add("halfopen-straggler-next-period", []Spec{HOD(2, 2)}, 0, []ExeSpec{{Script: ok(30)}, {Script: fail(5), StartAt: 1}, {Script: ok(10), StartAt: D + 50}, {Script: ok(10), StartAt: D + 50}}, true)
+	add("halfopen-straggler-close", []Spec{HOD(1, 2)}, 0, []ExeSpec{{Script: fail(30)}, {Script: ok(5), StartAt: 1}, {Script: fail(5), StartAt: 40}}, true)
 	// open -> delay elapses exactly when the next executions arrive -> half-open
 	add("delay-boundary", []Spec{CB(1, D)}, 0, []ExeSpec{{Script: fail(0)}, {Script: ok(10), StartAt: D - 1}, {Script: ok(10), StartAt: D}, {Script: ok(10), StartAt: D}}, true)
 	add("delay-boundary-fail", []Spec{CB(1, D)}, 0, []ExeSpec{{Script: fail(0)}, {Script: fail(10), StartAt: D}, {Script: ok(10), StartAt: D}}, true)
